@@ -205,6 +205,11 @@ class StubSftpServer:
                 extra = reply
             elif bad[0] == 'wrong_type':
                 reply = bytes([NAME]) + u32(rid) + u32(0)
+            elif bad[0] == 'short_body':
+                # right type and id, body cut short
+                reply = reply[:max(5, len(reply) - 3)]
+            elif bad[0] == 'extra_body':
+                reply = reply + b'\x00\x01'
 
         def release():
             self.outstanding -= 1
